@@ -233,6 +233,8 @@ class Sample:
             while off < len(ref) and off < len(alt) and ref[off] == alt[off]:
                 off += 1
             if len(ref) - off == 1 and len(alt) - off == 1:
+                if alt[off] not in "ACGT":  # e.g., spanning deletion (*)
+                    return pos, None
                 if alt[off] == self.gene[off + pos]:
                     return off + pos, "_"
                 return off + pos, f"{self.gene[off + pos]}>{alt[off]}"
@@ -270,7 +272,7 @@ class Sample:
                 hgvs += [get_mut(read.pos - 1, read.ref, a) for a in read.alleles[1:]]
                 for gt in g:
                     pos, op = hgvs[gt]
-                    if op == "_":
+                    if op == "_" or op is None:  # reference or unsupported allele
                         continue
                     muts[pos, op] += [(40, 40)] * 10
                     norm[pos] = norm[pos][:-10]
